@@ -26,8 +26,13 @@ def is_signed(event, config):
     # back ends keep created_at as an integer and id, pubkey and sig as bytes
     if type(event.created_at) is not int:
         raise StorageError("invalid: created_at must be an integer")
-    for value in (event.id, event.pubkey, event.sig):
-        if not isinstance(value, str) or value != value.lower():
+    for value, length in ((event.id, 64), (event.pubkey, 64), (event.sig, 128)):
+        # bytes.fromhex() skips white space, so the length and the alphabet are checked here
+        if (
+            not isinstance(value, str)
+            or len(value) != length
+            or value.strip("0123456789abcdef")
+        ):
             raise StorageError("invalid: id, pubkey and sig must be lowercase hex")
     if not event.verify():
         raise StorageError("invalid: Bad signature")
